@@ -169,6 +169,26 @@ Theorem C11_result_spans :
 Proof. exact parse_tree_spans. Qed.
 Print Assumptions C11_result_spans.
 
+(* ... and its leaves are tokens of the input: every shifted token (y, [s, e)) is one the
+   scanner returned at position s (in some state), provided the strategy takes the token it
+   leaves ahead from the scanner (strategy_scans; the default strategy does) *)
+Theorem C11_leaves_are_tokens :
+  forall g tb skipws next_token stop_id consume_input strategy recovery fuel pos t rp lay tr errs,
+    strategy_scans next_token strategy ->
+    rcv_parse g tb skipws next_token stop_id consume_input recovery strategy fuel pos
+    = RvOk t rp lay tr errs ->
+    forall y s e l, In (y, s, e, l) tr -> exists st, next_token st s = TTok y (e - s).
+Proof.
+  exact (fun g tb skipws next_token stop_id consume_input strategy recovery =>
+           parse_tokens g tb skipws next_token stop_id consume_input strategy recovery).
+Qed.
+Print Assumptions C11_leaves_are_tokens.
+
+Theorem C11_default_strategy_scans :
+  forall next_token in_len, strategy_scans next_token (default_strategy next_token in_len).
+Proof. exact default_scans. Qed.
+Print Assumptions C11_default_strategy_scans.
+
 (* The validator run on the impl's parser.errors (LR and GLR): what [spans_check] = true means *)
 Theorem C11_spans_check_sound :
   forall lo hi l, spans_check lo hi l = true ->
@@ -182,11 +202,20 @@ Proof.
 Qed.
 Print Assumptions C11_spans_check_sound.
 
+(* The recovery model that C15's history theorems use (Model/Reuse.v rec_run without an action
+   budget) is this model with the default strategy, so the theorems above apply to it. *)
+Theorem C11_same_model_as_C15 :
+  forall g tb skipws next_token stop_id consume_input in_len recovery fuel s errs,
+    rec_run g tb skipws next_token stop_id consume_input in_len recovery fuel None s errs
+    = rec_of_rcv (rcv_run g tb skipws next_token stop_id consume_input recovery
+                          (default_strategy next_token in_len) fuel s errs).
+Proof. exact rec_run_is_rcv_run. Qed.
+Print Assumptions C11_same_model_as_C15.
+
 (* NOT PROVED (evaluated on every generated case on the impl's tree and spans with the verified
    forest checker, and on the model through the correspondence):
    C11_coverage -- for the LR parser every non-layout character lies in exactly one leaf or in
-   exactly one reported span; C11_leaves_are_tokens -- every shifted token is one the scanner
-   returned at its position (needs one more invariant over the trace);
+   exactly one reported span;
    C11_glr_spans -- GLR recovery has no driver model (impl-level oracle only). *)
 
 (* non-vacuity: 'a' is found behind junk, and trailing junk is skipped up to the end of the
